@@ -349,13 +349,38 @@ type crashCase struct {
 	Hit   int
 }
 
+// groupWanted mirrors the driver's group selection (VERIF_ONLY_GROUPS / VERIF_SKIP_GROUPS, name prefixes) so that
+// the dry runs are not executed in a pass that skips the crash groups.
+func groupWanted(name string) bool {
+	match := func(list string) bool {
+		for _, p := range strings.Split(list, ",") {
+			if p != "" && strings.HasPrefix(name, p) {
+				return true
+			}
+		}
+		return false
+	}
+	if only := os.Getenv("VERIF_ONLY_GROUPS"); only != "" && !match(only) {
+		return false
+	}
+	if skip := os.Getenv("VERIF_SKIP_GROUPS"); skip != "" && match(skip) {
+		return false
+	}
+	return true
+}
+
 func crashGroups(t *testing.T, r *report.Run) {
 	nScripts := r.Pick(2, 20)
+	ran := false
 	for idx := 0; idx < nScripts; idx++ {
 		group := fmt.Sprintf("crash%d", idx)
 		if r.Only != "" && !strings.HasPrefix(r.Only, group+"/") {
 			continue
 		}
+		if !groupWanted(group) {
+			continue
+		}
+		ran = true
 		sc := buildScript(r.Seed, idx)
 		// dry run: counts the hits of every crash point and checks the script itself against the reference
 		dir := scratch("c08-dry-")
@@ -386,7 +411,9 @@ func crashGroups(t *testing.T, r *report.Run) {
 			runCrash(r, idx, sc, cases[i])
 		})
 	}
-	r.Exhaustive("every (crash point, hit) of every script")
+	if ran && r.Only == "" {
+		r.Exhaustive("every (crash point, hit) of every script")
+	}
 }
 
 func runCrash(r *report.Run, idx int, sc *script, cc crashCase) {
